@@ -612,32 +612,78 @@ def sqrt_normal(n):
 
 
 # ---------------------------------------------------------------- rational-function normal form
-def to_ratfun(n, memo=None):
-    """(num, den) as Poly with Fraction coefficients; no reduction to lowest terms.  sqrt / abs / ite are not supported."""
+class TooLarge(NotImplementedError):
+    pass
+
+
+_FACTORS = {}     # key -> Poly (atomic denominator factors, kept unexpanded)
+
+
+def _fkey(p):
+    k = tuple(sorted(p.items()))
+    _FACTORS.setdefault(k, p)
+    return k
+
+
+def _expand(factors):
+    r = Poly.const(1)
+    for k, mult in factors.items():
+        for _ in range(mult):
+            r = r * _FACTORS[k]
+    return r
+
+
+def to_ratfun(n, memo=None, max_terms=20000):
+    """(num, den) as Poly with Fraction coefficients.  Denominators are tracked as multisets of atomic factors so that
+    sums take least common multiples instead of products.  sqrt / abs / ite are not supported; TooLarge when a numerator
+    exceeds max_terms monomials."""
     memo = {} if memo is None else memo
     one = Poly.const(1)
+
+    def norm_const(num, den):
+        return num, den
+
     for x in topo([n]):
         if x in memo:
             continue
         op = x.op
         a = x.args
-        if op == 'var': r = (Poly.var(a[0]), one)
+        if op == 'var': r = (Poly.var(a[0]), {})
         elif op == 'const':
             if algebraic_sqrt(a[0]) is not None:
                 raise NotImplementedError('ratfun: irrational constant')
-            r = (Poly.const(algebraic(a[0])), one)
+            r = (Poly.const(algebraic(a[0])), {})
         elif op in ('add', 'sub'):
             (n1, d1), (n2, d2) = memo[a[0]], memo[a[1]]
             if d1 == d2:
                 r = ((n1 + n2) if op == 'add' else (n1 - n2), d1)
             else:
-                r = ((n1 * d2 + n2 * d1) if op == 'add' else (n1 * d2 - n2 * d1), d1 * d2)
+                L = dict(d1)
+                for k, m_ in d2.items():
+                    if m_ > L.get(k, 0):
+                        L[k] = m_
+                c1 = _expand({k: m_ - d1.get(k, 0) for k, m_ in L.items() if m_ > d1.get(k, 0)})
+                c2 = _expand({k: m_ - d2.get(k, 0) for k, m_ in L.items() if m_ > d2.get(k, 0)})
+                r = ((n1 * c1 + n2 * c2) if op == 'add' else (n1 * c1 - n2 * c2), L)
         elif op == 'mul':
             (n1, d1), (n2, d2) = memo[a[0]], memo[a[1]]
-            r = (n1 * n2, d1 * d2)
+            D = dict(d1)
+            for k, m_ in d2.items():
+                D[k] = D.get(k, 0) + m_
+            r = (n1 * n2, D)
         elif op == 'div':
             (n1, d1), (n2, d2) = memo[a[0]], memo[a[1]]
-            r = (n1 * d2, d1 * n2)
+            num = n1 * _expand(d2)
+            D = dict(d1)
+            c = n2.as_const()
+            if c is not None:
+                if c == 0:
+                    raise ZeroDivisionError('ratfun: division by zero constant')
+                num = num.scale(1 / c)
+            else:
+                k = _fkey(n2)
+                D[k] = D.get(k, 0) + 1
+            r = (num, D)
         elif op == 'neg':
             n1, d1 = memo[a[0]]
             r = (-n1, d1)
@@ -645,16 +691,28 @@ def to_ratfun(n, memo=None):
             n1, d1 = memo[a[0]]
             e = a[1]
             if e < 0:
-                n1, d1, e = d1, n1, -e
-            rn, rd = one, one
+                num = _expand(d1)
+                c = n1.as_const()
+                D = {}
+                if c is not None:
+                    num = num.scale(1 / c)
+                else:
+                    D = {_fkey(n1): 1}
+                n1, d1, e = num, D, -e
+            rn, rd = one, {}
             for _ in range(e):
-                rn, rd = rn * n1, rd * d1
+                rn = rn * n1
+                for k, m_ in d1.items():
+                    rd[k] = rd.get(k, 0) + m_
             r = (rn, rd)
         else:
             raise NotImplementedError(f'ratfun: {op}')
-        # cheap normalisation: constant denominators are folded into the numerator
-        c = r[1].as_const()
-        if c is not None and c != 0 and c != 1:
-            r = (r[0].scale(1 / c), one)
+        if len(r[0]) > max_terms:
+            raise TooLarge(f'ratfun numerator has {len(r[0])} monomials')
         memo[x] = r
-    return memo[n]
+    num, D = memo[n]
+    return num, D
+
+
+def ratfun_den_poly(D):
+    return _expand(D)
